@@ -73,8 +73,8 @@ def run(ctx):
             scen.append(sweep_case(digital_rf, os.path.join(ctx.work, "chan"), rng, ctx.seed * 31 + i, dt, o, c, ns, m, lay,
                                    "sweep%d:%s%s%s x%d %s %s" % (i, o, dt, "c" if c else "", ns, m, lay), rates[i % len(rates)]))
         nsweep = len(scen)
-        s2, _ = cc.e3(ctx, digital_rf, ctx.pick(30, 1500), mode="contU")
-        s3, _ = cc.e3(ctx, digital_rf, ctx.pick(15, 700), mode="contC")
+        s2, _ = cc.e3(ctx, digital_rf, ctx.pick(30, 700), mode="contU")
+        s3, _ = cc.e3(ctx, digital_rf, ctx.pick(15, 350), mode="contC")
     scen += s2 + s3
     cc.account(ctx, scen, 0, "product sweep {i1..u8,f4,f8} x {<,>} x {real,complex} x {1,3 subchannels} x {contU, contC} x gap layouts "
                "{inside a file, head of first file, tail of last file, whole files skipped, combination}, plus random continuous-mode "
